@@ -158,7 +158,7 @@ class Rewriter:
             bo = mm.end() - 1
             bc = match_close(m, bo)
             attr = re.sub(r"\s+", " ", self.t[mm.start():bc + 1])
-            # R16 (opt-in per directive, `:: cfg_on=tls`): `#[cfg(feature = "F")]` on a match arm / enum variant /
+            # R19 (opt-in per directive, `:: cfg_on=tls`; called R16 in notes/serving.md): `#[cfg(feature = "F")]` on a match arm / enum variant /
             # field with F in the directive's list -> the attribute is dropped, the guarded item KEPT.  The verified
             # text is that of a build with F enabled (the pinned replay build: default + mocks,tls,tls-ring,sni).
             # Assumed for builds without F: the variant and its arm disappear together, every other arm is the
@@ -166,7 +166,7 @@ class Rewriter:
             mcf = re.match(r'#\[cfg\(feature = "([A-Za-z0-9_-]+)"\)\]$', attr)
             r16 = bool(mcf and mcf.group(1) in getattr(self, "cfg_on", ()))
             if r16:
-                self.note("R16")
+                self.note("R19")
             if r16 or re.match(r"#\[(pin|allow|cfg_attr|inline|must_use|error|from|source|doc|derive|non_exhaustive|pin_project|pinned_drop|track_caller)\b", attr):
                 e = bc + 1
                 # remove following whitespace up to and including one newline if attr is alone on the line
@@ -221,6 +221,15 @@ class Rewriter:
     def r3_visibility(self):
         self.t, n = re.subn(r"\bpub\s*\(\s*(?:in\s+[A-Za-z0-9_:]+|super|crate|self)\s*\)", "pub", self.t)
         self.note("R3", n)
+
+    # R3m ------------------------------------------------------------
+    def r3m_super_paths(self, depth: int):
+        """items taken out of a nested module (`:: mod=a::b`) are emitted at the root of the unit: a path that climbs
+        out of that module with up to `depth` leading `super::` segments is rewritten to start at the root"""
+        if depth <= 0:
+            return
+        self.t, n = re.subn(r"(?<![A-Za-z0-9_:])(?:super::){1,%d}" % depth, "", self.t)
+        self.note("R3m", n)
 
     # R4 -------------------------------------------------------------
     def r4_bool_or_assign(self):
@@ -844,6 +853,7 @@ class Unit:
         self.degraded = {}  # fn name -> lost hint anchors
         self.stub = set()
         self.nohints = set()
+        self.structural = {}  # structural obligation name -> {props, violations}
         self.stubbed = {}   # fn key -> reason (body not verified: its obligations are undecided)
         self.fn_lines = {}  # fn key -> (first line, last line) of the emitted text, 1-based
         self.fn_has_hints = {}
@@ -893,6 +903,24 @@ def build_unit(unit_name: str, reach: bool = False, mutate=None, stub=None, nohi
             fpath, name = head[1], head[2]
             opts = parse_opts(segs[1:])
             emit_plain(u, kind, fpath, name, opts)
+            i += 1
+        elif kind in ("writers", "implset"):
+            # structural frame obligations (no Verus text): checked mechanically on the source
+            #   //@ writers <name> [C..] :: <file>[,<file>..] :: <regex of a write to the state> :: fn1,fn2,..
+            #       every match of the regex outside test modules must sit inside one of the listed fns
+            #   //@ implset <name> [C..] :: <file> :: <impl-header regex> :: fn1,fn2,..
+            #       the impl block defines exactly these fns (a new method - e.g. an overridden default - is a change
+            #       no function contract can see)
+            segs = [x.strip() for x in split_top(d[len(kind):].strip())]
+            mo = re.match(r"([A-Za-z0-9_.\-]+)\s*\[([A-Z0-9, ]+)\]$", segs[0])
+            if not mo or len(segs) != 4:
+                raise ScanError("bad %s directive: %s" % (kind, d))
+            props = [x.strip() for x in mo.group(2).split(",") if x.strip()]
+            allowed = [x.strip() for x in segs[3].split(",") if x.strip()]
+            bad = structural_check(kind, segs[1], segs[2], allowed)
+            u.structural[mo.group(1)] = {"props": props, "kind": kind, "violations": bad,
+                                         "text": "%s: %s in %s limited to {%s}" % (kind, segs[2], segs[1], ", ".join(allowed))}
+            u.emit("// structural obligation %s [%s]: %s" % (mo.group(1), ",".join(props), "ok" if not bad else "VIOLATED: " + "; ".join(bad)), ("spec", "structural"))
             i += 1
         elif kind == "fn":
             body = d[2:].strip()
@@ -1001,6 +1029,9 @@ def emit_plain(u: Unit, kind, fpath, name, opts):
     rw = Rewriter(text, what)
     rw.cfg_on = set(x.strip() for x in opts.get("cfg_on", "").split(",") if x.strip())  # R16
     t = rw.common()
+    if opts.get("mod") and opts.get("rootpaths") == "1":
+        rw.r3m_super_paths(len(opts["mod"].split("::")))
+        t = rw.t
     pre = ""
     if kind in ("struct", "enum"):
         keep = set(opts["keep_derive"].split(",")) if "keep_derive" in opts else KEEP_DERIVES_DEFAULT
@@ -1100,6 +1131,9 @@ def emit_fn(u: Unit, fpath, impl_pat, name, spec: FnSpec, reach: bool, mutate):
     rw.matchrw = spec.opts.get("matchrw", "")
     try:
         t = rw.common()
+        if spec.opts.get("mod") and spec.opts.get("rootpaths") == "1":
+            rw.r3m_super_paths(len(spec.opts["mod"].split("::")))
+            t = rw.t
     except Unsupported as e:
         # a construct outside the rewrite table appeared in this fn: keep its contract for the callers,
         # its own obligations become undecided (never a violation)
@@ -1189,6 +1223,71 @@ def emit_fn(u: Unit, fpath, impl_pat, name, spec: FnSpec, reach: bool, mutate):
     u.items.append({"kind": "fn", "name": name, "impl": header, "file": fpath, "rewrites": rw.applied,
                     "sha": hashlib.sha256(text.encode()).hexdigest()[:12],
                     "contracted": bool(spec.spec.strip()), "emitted_name": spec.opts.get("as", name)})
+
+
+def enclosing_fn(src, pos):
+    """name of the innermost `fn` whose body contains offset pos ('' if none); test modules -> None"""
+    m = src.m
+    # inside a #[cfg(test)] / #[cfg(all(test..))] module?  find `mod X {` blocks preceded by a cfg(test) attribute
+    for mm in re.finditer(r"#\[cfg\((?:all\()?test\b[^\]]*\]\s*(?:pub(?:\([^)]*\))?\s+)?mod\s+[A-Za-z_][A-Za-z0-9_]*\s*\{", src.src):
+        bo = mm.end() - 1
+        try:
+            bc = match_close(m, bo)
+        except ScanError:
+            continue
+        if bo < pos < bc:
+            return None
+    best = ""
+    for mm in re.finditer(r"\bfn\s+([A-Za-z_][A-Za-z0-9_]*)", m):
+        if mm.start() > pos:
+            break
+        try:
+            bo = find_body_open(m, mm.start())
+        except ScanError:
+            continue
+        if bo < 0:
+            continue
+        try:
+            bc = match_close(m, bo)
+        except ScanError:
+            continue
+        if bo < pos < bc:
+            best = mm.group(1)
+    return best
+
+
+def structural_check(kind, files, pattern, allowed):
+    bad = []
+    if kind == "writers":
+        rx = re.compile(pattern)
+        for fpath in [x.strip() for x in files.split(",") if x.strip()]:
+            src = source(fpath)
+            for mm in rx.finditer(src.m):
+                fn = enclosing_fn(src, mm.start())
+                if fn is None:
+                    continue
+                if fn not in allowed:
+                    line = src.src.count("\n", 0, mm.start()) + 1
+                    bad.append("%s:%d `%s` in fn %s" % (fpath, line, src.src[mm.start():mm.end()], fn or "<top level>"))
+    else:
+        src = source(files)
+        rx = re.compile(pattern)
+        blocks = [b for b in src.impl_blocks() if rx.search(b.header)]
+        if len(blocks) != 1:
+            raise ScanError("lost anchor: impl /%s/ in %s (%d matches)" % (pattern, files, len(blocks)))
+        blk = blocks[0]
+        names = []
+        inner_lo = blk.body_open + 1
+        for mm in re.finditer(r"(?m)^[ \t]*(?:pub(?:\([^)]*\))?\s+)?(?:(?:const|async|unsafe)\s+)*fn\s+([A-Za-z_][A-Za-z0-9_]*)", src.m[inner_lo:blk.end - 1]):
+            if src._depth_at(inner_lo + mm.start(), inner_lo) == 0:
+                names.append(mm.group(1))
+        extra = [n for n in names if n not in allowed]
+        missing = [n for n in allowed if n not in names]
+        if extra:
+            bad.append("%s: impl %s defines additional fn(s) %s" % (files, blk.header.split(" where")[0], ", ".join(extra)))
+        if missing:
+            bad.append("%s: impl %s no longer defines %s" % (files, blk.header.split(" where")[0], ", ".join(missing)))
+    return bad
 
 
 def proj_types_of(src) -> dict:
